@@ -58,7 +58,7 @@ func runC15(c *core.Ctx) {
 	// duplicate density: universe size
 	u := []int{1, 2, 3, n/4 + 1, n + 1, 1 << 30}[r.Intn(6)]
 	if big && u < 4 {
-		u = n + 1
+		u = []int{n + 1, n/16 + 1, 50}[r.Intn(3)]
 	}
 	keys := make([]int, n)
 	for i := range keys {
@@ -267,6 +267,29 @@ func sortAll(c *core.Ctx, keys []int, r *core.Rand) bool {
 		}
 		slices.Sort(fs)
 		slices.SortDesc(ss)
+		// strings that share prefixes, end early, or contain NUL bytes (where "the string
+		// has ended" and "the next byte is 0x00" must not be confused), against sort.Strings
+		{
+			frag := []string{"", "a", "a\x00", "a\x00\x00", "ab", "a\x00b", "\x00", "b", "a\x00a", "aa", "\x00\x00", "a\x01"}
+			hs := make([]string, n)
+			for i, k := range keys {
+				hs[i] = frag[(k%len(frag)+len(frag))%len(frag)]
+				if k&64 != 0 {
+					hs[i] = "pre" + hs[i]
+				}
+			}
+			ws := append([]string(nil), hs...)
+			sort.Strings(ws)
+			as, ds := append([]string(nil), hs...), append([]string(nil), hs...)
+			slices.Sort(as)
+			slices.SortDesc(ds)
+			for i := range ws {
+				if as[i] != ws[i] || ds[i] != ws[n-1-i] {
+					return fail("Sort:strings-with-prefixes-and-NUL", fmt.Sprintf("Sort/SortDesc on strings sharing prefixes and containing NUL bytes: position %d holds %q / %q, sort.Strings gives %q / %q", i, as[i], ds[i], ws[i], ws[n-1-i]))
+				}
+			}
+			c.Count("sorts", 2)
+		}
 		if !sort.Float64sAreSorted(fs) {
 			return fail("Sort:float64", "Sort on float64 not ascending")
 		}
@@ -283,6 +306,13 @@ func sortAll(c *core.Ctx, keys []int, r *core.Rand) bool {
 			for k := 0; k < 6; k++ {
 				t := want[r.Intn(n)]
 				targets = append(targets, t, t+1, t-1)
+			}
+			// the values sitting at block boundaries (multiples of 64) of a big slice: a
+			// two-level search that mishandles a run of duplicates crossing a boundary
+			if n >= 1024 {
+				for i := 64; i < n; i += 64 {
+					targets = append(targets, want[i])
+				}
 			}
 		} else {
 			targets = append(targets, 0, 5)
